@@ -96,8 +96,32 @@ fn one(case: &Value) -> Result<Value, String> {
         fields: DynVal::Struct(fields.clone()),
     };
     let by_ref = case["by_ref"].as_bool().unwrap_or(false);
+    // the instance id supplied through the library's own wrapper (ErrorType::with_instance_id) instead of the type itself
+    let wrap = case["wrap_id"].as_bool().unwrap_or(false) && !case["instance"].is_null();
+    if wrap {
+        let id: Uuid = case["instance"].as_str().unwrap().parse().unwrap();
+        let bare = || DynError { instance: None, ..mk() };
+        return finish_one(case, conjure_error::encode(&bare().with_instance_id(id)), conjure_error::encode(&bare().with_instance_id(id)),
+            |mode| match mode {
+                "service" => Error::service("cause", bare().with_instance_id(id)),
+                "service_safe" => Error::service_safe("cause", bare().with_instance_id(id)),
+                "propagated" => Error::propagated_service("cause", conjure_error::encode(&bare().with_instance_id(id))),
+                _ => Error::propagated_service_safe("cause", conjure_error::encode(&bare().with_instance_id(id))),
+            });
+    }
     let encoded = if by_ref { conjure_error::encode(&&mk()) } else { conjure_error::encode(&mk()) };
     let encoded2 = conjure_error::encode(&mk());
+    finish_one(case, encoded, encoded2, |mode| match mode {
+        "service" if by_ref => Error::service("cause", &mk()),
+        "service_safe" if by_ref => Error::service_safe("cause", &mk()),
+        "service" => Error::service("cause", mk()),
+        "service_safe" => Error::service_safe("cause", mk()),
+        "propagated" => Error::propagated_service("cause", conjure_error::encode(&mk())),
+        _ => Error::propagated_service_safe("cause", conjure_error::encode(&mk())),
+    })
+}
+
+fn finish_one(case: &Value, encoded: SerializableError, encoded2: SerializableError, build: impl Fn(&str) -> Error) -> Result<Value, String> {
     // JSON round trip of the serializable form
     let text = conjure_serde::json::to_string(&encoded).map_err(|e| e.to_string())?;
     let back = conjure_serde::json::client_from_str::<SerializableError>(&text).map_err(|e| e.to_string())?;
@@ -105,14 +129,7 @@ fn one(case: &Value) -> Result<Value, String> {
     let smile = conjure_serde::smile::to_vec(&encoded).map_err(|e| e.to_string())?;
     let back_smile = conjure_serde::smile::server_from_slice::<SerializableError>(&smile).map_err(|e| e.to_string())?;
     let mode = case["mode"].as_str().unwrap_or("service");
-    let err = match mode {
-        "service" if by_ref => Error::service("cause", &mk()),
-        "service_safe" if by_ref => Error::service_safe("cause", &mk()),
-        "service" => Error::service("cause", mk()),
-        "service_safe" => Error::service_safe("cause", mk()),
-        "propagated" => Error::propagated_service("cause", conjure_error::encode(&mk())),
-        _ => Error::propagated_service_safe("cause", conjure_error::encode(&mk())),
-    };
+    let err = build(mode);
     let (kind_code, status) = match err.kind() {
         ErrorKind::Service(s) => (ser_err(s), s.error_code().status_code()),
         _ => (Value::Null, 0),
